@@ -36,8 +36,16 @@ func c14Check(c c14Case) fw.Outcome {
 	if minLat < -90-eps || maxLat > 90+eps || minLon < -180-eps || maxLon > 180+eps || minLat > maxLat || minLon > maxLon {
 		return fw.Failf(label, "RectFromCenter(%v,%v,%v) = (%v,%v,%v,%v) is not within the world bounds", lat, lon, r, minLat, minLon, maxLat, maxLon)
 	}
+	// the centre itself is a location at distance 0 <= r: it lies inside the rectangle for every radius
+	if over := math.Max(math.Max(minLat-lat, lat-maxLat)*mPerDeg, math.Max(minLon-lon, lon-maxLon)*mPerDeg*math.Cos(lat*math.Pi/180)); over > 0.01 {
+		return fw.Failf(label, "the centre (%v,%v) is %.3g m outside RectFromCenter(.., %v) = (%v,%v,%v,%v)", lat, lon, over, r, minLat, minLon, maxLat, maxLon)
+	}
 	if r < 1 {
-		return fw.OK(label+"/sub-metre", false)
+		// "radii too small to resolve return the degenerate rectangle at the centre": nothing further than ~1 m away
+		if h := (maxLat - minLat) * mPerDeg; h > 2.2 {
+			return fw.Failf(label, "RectFromCenter(%v,%v,%v) spans %.3g m in latitude for a sub-metre radius", lat, lon, r, h)
+		}
+		return fw.OK(label+"/sub-metre", true)
 	}
 	full := minLon <= -180+eps && maxLon >= 180-eps
 	ang := r / sphere.R * 180 / math.Pi // angular radius in degrees
